@@ -158,7 +158,7 @@ def parse(xs, wrap=False):
     if xs is None:
         return None
     if not wrap:
-        return etree.fromstring(xs)
+        return etree.fromstring(xs, etree.XMLParser(huge_tree=True))     # (replays of deeply nested documents)
     return etree.fromstring("<doc><pre><x/></pre>%s<post/><!--after--></doc>" % xs)[1]
 
 
@@ -628,6 +628,18 @@ def main(run):
             why = oracle(Ls, Rs, {}, False)
             if why and not why.startswith("skip:"):
                 viols.append({"what": why, "replay": dict(d, finding_key="two-prefixes-one-uri-on-left-root")})
+    # deeply nested documents (oracle only)
+    for Ls, Rs in differ_props.deep_pairs():
+        try:
+            n_ = len(xm.diff_trees(differ_props.parse_deep(Ls), differ_props.parse_deep(Rs)))
+            f_ = counting_formatter()
+            t_ = xm.diff_trees(differ_props.parse_deep(Ls), differ_props.parse_deep(Rs), formatter=f_)
+            if not isinstance(t_, str) or f_.entries < n_:
+                raise ValueError("%d bracketed entries for %d edit actions" % (f_.entries, n_))
+        except Exception as ex:  # noqa
+            viols.append({"what": "documents nested %d levels deep: diff_trees(..., formatter=XmlDiffFormatter()) failed: %s: %s"
+                                  % (Ls.count("<a>"), type(ex).__name__, ex),
+                          "replay": {"left": Ls, "right": Rs, "wrap": False, "opts": {}, "deep": True, "finding_key": None}})
     # labelled stream of the open finding processing-instruction-below-root (the differ raises; outside the model)
     from xmldiff.formatting import XmlDiffFormatter as _XDF
     for Ls, Rs in differ_props.PI_STREAM:
